@@ -1,0 +1,58 @@
+//go:build verif
+
+package proxy
+
+// Export hook for the verification harness (property C26, adapter layer). Add-only, no logic:
+// a Proxy value that only carries server and player maps, players wired over the caller's
+// connections, and the responder exactly as newBackendPlaySessionHandler builds it.
+
+import (
+	"net"
+	"strings"
+
+	"github.com/go-logr/logr"
+
+	"go.minekube.com/gate/pkg/edition/java/netmc"
+	"go.minekube.com/gate/pkg/edition/java/profile"
+	"go.minekube.com/gate/pkg/edition/java/proxy/bungeecord"
+	"go.minekube.com/gate/pkg/util/uuid"
+)
+
+type VerifC26World struct {
+	px *Proxy
+}
+
+func VerifC26NewWorld() *VerifC26World {
+	return &VerifC26World{px: &Proxy{
+		servers:     map[string]*registeredServer{},
+		playerNames: map[string]*connectedPlayer{},
+		playerIDs:   map[uuid.UUID]*connectedPlayer{},
+	}}
+}
+
+func (w *VerifC26World) AddServer(name string, addr net.Addr) {
+	w.px.servers[strings.ToLower(name)] = newRegisteredServer(NewServerInfo(name, addr))
+}
+
+// AddPlayer registers a player over client; server == "" means not connected to any server.
+func (w *VerifC26World) AddPlayer(name string, id uuid.UUID, client netmc.MinecraftConn, server string, backend netmc.MinecraftConn) {
+	p := &connectedPlayer{
+		MinecraftConn: client,
+		log:           logr.Discard(),
+		profile:       &profile.GameProfile{Name: name, ID: id},
+	}
+	if server != "" {
+		rs := w.px.servers[strings.ToLower(server)]
+		sc := newServerConnection(rs, nil, p)
+		sc.connection = backend
+		p.connectedServer_ = sc
+		rs.players.add(p)
+	}
+	w.px.playerNames[strings.ToLower(name)] = p
+	w.px.playerIDs[id] = p
+}
+
+// Responder is what newBackendPlaySessionHandler installs with the BungeeCord channel enabled.
+func (w *VerifC26World) Responder(player string) bungeecord.MessageResponder {
+	return newBungeeCordMessageResponder(true, w.px.playerNames[strings.ToLower(player)], w.px)
+}
